@@ -8,6 +8,7 @@ completion.  Responses are split into complete logical responses (literals inclu
 from __future__ import annotations
 
 import asyncio
+import logging
 import re
 from argparse import Namespace
 
@@ -18,6 +19,9 @@ from pymap.backend.dict import DictBackend
 from pymap.imap import IMAPServer
 from pymap.sieve.manage import ManageSieveServer
 from pymap.user import UserMetadata
+
+
+logging.disable(logging.CRITICAL)     # the servers log every escaped exception; the harnesses observe them directly
 
 
 class FakeArgs(Namespace):
@@ -53,9 +57,10 @@ class _Sock:
 class FakeWriter:
     """StreamWriter stand-in: collects what the server writes; drain() can be held (back-pressure)"""
 
-    def __init__(self, fd):
+    def __init__(self, fd, peer=('1.2.3.4', 1234)):
         self.buf = bytearray()
         self.closed = False
+        self.peer = peer
         self._sock = _Sock(fd)
         self.hold: asyncio.Event | None = None     # when set to an Event, drain() waits for it
         self.drains = 0
@@ -64,7 +69,7 @@ class FakeWriter:
         if name == 'socket':
             return self._sock
         if name == 'peername':
-            return ('1.2.3.4', 1234)
+            return self.peer
         if name == 'sockname':
             return ('5.6.7.8', 5678)
         return default
@@ -128,11 +133,11 @@ def split_responses(buf: bytes):
 
 
 class Client:
-    def __init__(self, world, name, server):
+    def __init__(self, world, name, server, peer=('1.2.3.4', 1234)):
         self.world = world
         self.name = name
         self.reader = asyncio.StreamReader()
-        self.writer = FakeWriter(world.next_fd())
+        self.writer = FakeWriter(world.next_fd(), peer)
         self.tagn = 0
         self.consumed = 0
         self.log = []          # (sent line, [responses])
@@ -245,21 +250,23 @@ class World:
         self._fd += 1
         return self._fd
 
-    async def start(self, extra_users=(), **overrides):
+    async def start(self, extra_users=(), args=None, **overrides):
         hash_context = BuiltinHash(hash_name='sha1', salt_len=0, rounds=1)
         self.backend, self.config = await DictBackend.init(
-            FakeArgs(), hash_context=hash_context, invalid_user_sleep=0.0, **overrides)
+            FakeArgs(**(args or {})), hash_context=hash_context, invalid_user_sleep=0.0, **overrides)
         self.server = IMAPServer(self.backend.login, self.config)
-        for user, pw in extra_users:
+        for entry in extra_users:
+            user, pw = entry[0], entry[1]
+            roles = frozenset(entry[2]) if len(entry) > 2 else frozenset()
             from pymap.backend.dict import Identity
             from pymap.user import Passwords
             hashed = await Passwords(self.config).hash_password(pw)
-            ident = Identity(user, self.backend.login, None, frozenset())
-            await ident.set(UserMetadata(self.config, user, password=hashed))
+            ident = Identity(user, self.backend.login, None, frozenset({'admin'}) if roles else frozenset())
+            await ident.set(UserMetadata(self.config, user, password=hashed, roles=roles))
         return self
 
-    async def client(self, name, login=True, user=b'testuser', pw=b'testpass'):
-        c = Client(self, name, self.server)
+    async def client(self, name, login=True, user=b'testuser', pw=b'testpass', peer=('1.2.3.4', 1234)):
+        c = Client(self, name, self.server, peer)
         self.clients[name] = c
         await c.greeting()
         if login:
